@@ -199,6 +199,13 @@ Definition Encodes (bytes : list N) (v : tval) : Prop := enc TStruct v bytes.
 (* ------------------------------------------------------------------------------------------ *)
 (** * Executable reading *)
 
+(** at least n bytes are left (n may be huge: no conversion to nat) *)
+Fixpoint has_len (l : list N) (n : N) : bool :=
+  match n with
+  | 0 => true
+  | _ => match l with [] => false | _ :: t => has_len t (N.pred n) end
+  end.
+
 Fixpoint take_n (k : nat) (bs : list N) : option (list N * list N) :=
   match k with
   | O => Some ([], bs)
@@ -282,12 +289,13 @@ Fixpoint dec_pairs (dk dv : list N -> option (tval * list N)) (n : nat) (bs : li
             end
   end.
 
-(** fields up to and including STOP; [k] bounds the number of fields (each takes at least one byte) *)
-Fixpoint dec_fields (dv : ttype -> list N -> option (tval * list N)) (k : nat) (last : Z) (bs : list N)
+(** fields up to and including STOP; the length of [k] bounds the number of fields (each takes at least
+    one byte: the bytes themselves are passed) *)
+Fixpoint dec_fields (dv : ttype -> list N -> option (tval * list N)) (k : list N) (last : Z) (bs : list N)
   : option (list (Z * tval) * list N) :=
   match k with
-  | O => None
-  | S k' =>
+  | [] => None
+  | _ :: k' =>
     match dec_fhdr last bs with
     | None => None
     | Some (None, r) => Some ([], r)
@@ -309,12 +317,13 @@ Fixpoint dec_fields (dv : ttype -> list N -> option (tval * list N)) (k : nat) (
     end
   end.
 
-(** [dec_val d t bs]: read one value of wire type t in element position; d bounds the nesting depth
-    (a value nested deeper than its own byte length does not exist). *)
-Fixpoint dec_val (d : nat) (t : ttype) (bs : list N) {struct d} : option (tval * list N) :=
+(** [dec_val d t bs]: read one value of wire type t in element position; the length of d bounds the
+    nesting depth (a value nested deeper than its own byte length does not exist; d is a list used for its
+    length only, so that the bytes themselves can serve). *)
+Fixpoint dec_val (d : list N) (t : ttype) (bs : list N) {struct d} : option (tval * list N) :=
   match d with
-  | O => None
-  | S d' =>
+  | [] => None
+  | _ :: d' =>
     match t with
     | TBool => match bs with
                | b :: tl => if b =? 1 then Some (VBool true, tl)
@@ -331,21 +340,21 @@ Fixpoint dec_val (d : nat) (t : ttype) (bs : list N) {struct d} : option (tval *
     | TDouble => match take_n 8 bs with Some (a, r) => Some (VDouble (le_val a), r) | None => None end
     | TBinary => match varint_dec bs with
                  | Some (n, r) =>
-                   if (n <? 2 ^ 31) && (n <=? N.of_nat (length r)) then
+                   if (n <? 2 ^ 31) && has_len r n then
                      match take_n (N.to_nat n) r with Some (a, r') => Some (VBinary a, r') | None => None end
                    else None
                  | None => None
                  end
     | TList => match dec_lhdr bs with
                | Some (et, n, r) =>
-                 if n <=? N.of_nat (length r) then
+                 if has_len r n then
                    match dec_elems (dec_val d' et) (N.to_nat n) r with Some (vs, r') => Some (VList et vs, r') | None => None end
                  else None
                | None => None
                end
     | TSet => match dec_lhdr bs with
               | Some (et, n, r) =>
-                if n <=? N.of_nat (length r) then
+                if has_len r n then
                   match dec_elems (dec_val d' et) (N.to_nat n) r with Some (vs, r') => Some (VSet et vs, r') | None => None end
                 else None
               | None => None
@@ -353,7 +362,7 @@ Fixpoint dec_val (d : nat) (t : ttype) (bs : list N) {struct d} : option (tval *
     | TMap => match varint_dec bs with
               | Some (n, r) =>
                 if n =? 0 then Some (VMap [], r)
-                else if (n <? 2 ^ 31) && (n <=? N.of_nat (length r)) then
+                else if (n <? 2 ^ 31) && has_len r n then
                   match r with
                   | tb :: r1 =>
                     if tb <? 256 then
@@ -371,7 +380,7 @@ Fixpoint dec_val (d : nat) (t : ttype) (bs : list N) {struct d} : option (tval *
                 else None
               | None => None
               end
-    | TStruct => match dec_fields (dec_val d') (length bs) 0%Z bs with
+    | TStruct => match dec_fields (dec_val d') bs 0%Z bs with
                  | Some (fs, r) => Some (VStruct fs, r)
                  | None => None
                  end
@@ -381,7 +390,7 @@ Fixpoint dec_val (d : nat) (t : ttype) (bs : list N) {struct d} : option (tval *
 
 (** Decode a whole message: a struct that uses all the bytes. *)
 Definition spec_decode (bs : list N) : option tval :=
-  match dec_val (S (length bs)) TStruct bs with
+  match dec_val (0 :: bs) TStruct bs with
   | Some (v, []) => Some v
   | _ => None
   end.
